@@ -1,4 +1,5 @@
 import Anything.Model.Lexer
+import Anything.Lemmas.ParserLeaves
 /-!
 # C12 — lexing is lossless (lexer half)
 
@@ -119,6 +120,96 @@ theorem C12_bytes (s : List Char) : ((lex s).map Token.len).sum = utf8Len s := b
 example : (lex " 1 + 2 °C".toList).map (fun t => (t.kind, t.len)) =
     [(.WHITESPACE, 1), (.NUMBER, 1), (.WHITESPACE, 1), (.PLUS, 1), (.WHITESPACE, 1), (.NUMBER, 1),
      (.WHITESPACE, 1), (.WORD, 3)] := by
+  decide +kernel
+
+/-!
+# C12 — parsing is lossless (parser half)
+
+`stream s` (`Lemmas/ParserLeaves.lean`) is the leaves already in the builder's forest
+followed by the tokens still in the buffer; every parser primitive and every grammar
+function keeps it unchanged whenever it succeeds, and `root` only stops on an empty buffer.
+Hence every token of the input ends up as exactly one leaf, in order.
+
+The kind `EOF` is what `Parser::nth` answers past the end of the buffer. A token list that
+*contains* a token of that kind makes `root` stop early (`C12_leaves_needs_noEOF`), so the
+statement over all token lists carries the hypothesis that no token has kind `EOF`; the lexer
+never produces one (`C12_lex_noEOF`), so the statement over all source strings is unconditional.
+-/
+
+open Anything.Grammar Anything.PLeaves
+
+/-- **C12 (stream invariant).** Running the root grammar rule from *any* parser state, with any
+fuel, never loses, duplicates or reorders a token: leaves built so far followed by the
+remaining buffer is the same sequence before and after. -/
+theorem C12_root_stream (fuel : Nat) (s s' : PState) (h : root fuel s = .ok ((), s')) :
+    Tree.leavesList s'.b.forest ++ s'.toks = Tree.leavesList s.b.forest ++ s.toks :=
+  pres_root fuel s () s' h
+
+/-- **C12 (lexer kinds).** No lexed token has the kind `EOF`. -/
+theorem C12_lex_noEOF (src : List Char) : ∀ t ∈ lex src, t.kind ≠ .EOF := lex_noEOF src
+
+/-- **C12 (leaves, unconditional form).** For every token list whatsoever the leaves of a
+successful parse are a prefix of the input tokens (nothing is invented or reordered). -/
+theorem C12_leaves_prefix (toks : List Token) (forest : List Tree)
+    (h : parseRootToks toks = .ok forest) : Tree.leavesList forest <+: toks := by
+  unfold parseRootToks at h
+  split at h
+  · rename_i u s hr
+    simp only [Except.ok.injEq] at h
+    have hp := pres_root _ _ _ _ hr
+    simp only [stream, Tree.leavesList, List.nil_append] at hp
+    exact ⟨s.toks, h ▸ hp⟩
+  · cases h
+
+/-- **C12 (leaves).** For every token list none of whose tokens claims the kind `EOF`, the
+leaves of the parsed tree are exactly the tokens, in order. -/
+theorem C12_leaves (toks : List Token) (forest : List Tree) (hno : ∀ t ∈ toks, t.kind ≠ .EOF)
+    (h : parseRootToks toks = .ok forest) : Tree.leavesList forest = toks :=
+  parseRootToks_leaves toks forest h hno
+
+/-- The hypothesis of `C12_leaves` cannot be dropped: a token of kind `EOF` ends the model's
+root loop with that token (and everything after it) still in the buffer. -/
+theorem C12_leaves_needs_noEOF :
+    ¬ ∀ toks forest, parseRootToks toks = .ok forest → Tree.leavesList forest = toks := by
+  intro h
+  have h1 := h [⟨.EOF, ['x']⟩, ⟨.WORD, ['a']⟩] [] rfl
+  simp [Tree.leavesList] at h1
+
+/-- **C12 (parse leaves).** The leaves of the tree parsed from a source string are exactly
+the lexer's tokens, in order. -/
+theorem C12_parse_leaves (src : List Char) (forest : List Tree)
+    (h : parseRoot src = .ok forest) : Tree.leavesList forest = lex src :=
+  C12_leaves (lex src) forest (C12_lex_noEOF src) h
+
+/-- **C12 (parse cover).** The leaf texts of the parsed tree, concatenated in order, are the
+input: every character of the query is attributed to exactly one leaf. -/
+theorem C12_parse_cover (src : List Char) (forest : List Tree)
+    (h : parseRoot src = .ok forest) : (Tree.leavesList forest).flatMap Token.text = src := by
+  rw [C12_parse_leaves src forest h]; exact C12_cover src
+
+/-- **C12 (tree text).** The source text covered by the forest (`Tree.textList`, the model of
+`&source[node.span()]`) is the whole input. -/
+theorem C12_parse_text (src : List Char) (forest : List Tree)
+    (h : parseRoot src = .ok forest) : Tree.textList forest = src := by
+  rw [Tree.textList_eq_leaves]; exact C12_parse_cover src forest h
+
+/-- **C12 (parse bytes).** Leaf byte lengths add up to the UTF-8 length of the input. -/
+theorem C12_parse_bytes (src : List Char) (forest : List Tree)
+    (h : parseRoot src = .ok forest) :
+    ((Tree.leavesList forest).map Token.len).sum = utf8Len src := by
+  rw [C12_parse_leaves src forest h]; exact C12_bytes src
+
+/-- Non-vacuity: a concrete query with nesting, a function call, a unit cast, an error
+recovery and a multi-byte character parses successfully (so the hypotheses of
+`C12_parse_leaves` … `C12_parse_bytes` are satisfiable) and its tree is not flat. -/
+example : (parseRoot "1 + {a b} * foo(2, 3m) to °C ) x".toList).toOption.map
+    (fun forest => ((Tree.leavesList forest).length, forest.length)) = some (28, 1) := by
+  decide +kernel
+
+/-- Non-vacuity of `C12_leaves` on a hand-made token list which the lexer cannot produce. -/
+example : ((parseRootToks [⟨.WORD, []⟩, ⟨.OPEN_PAREN, ['(']⟩, ⟨.CARET, []⟩]).toOption.map
+      (fun forest => (Tree.leavesList forest).length) = some 3) ∧
+    (∀ t ∈ [(⟨.WORD, []⟩ : Token), ⟨.OPEN_PAREN, ['(']⟩, ⟨.CARET, []⟩], t.kind ≠ .EOF) := by
   decide +kernel
 
 end Anything.Props.C12
